@@ -1095,6 +1095,9 @@ func (e *kvElection) runOnDemoteDetached(onDemote func()) <-chan struct{} {
 	done := make(chan struct{})
 	e.demoteStarted.Store(started)
 	go func() {
+		// gofail: var verifDemoteGoroutineEntry struct{}
+		// verifYield("demoteGoroutineEntry")
+
 		close(started)
 		onDemote()
 		close(done)
